@@ -313,10 +313,12 @@ def PyModuleIR.used (m : PyModuleIR) : List Name :=
       [m.schema.typesTm] ++ m.schema.directives.flatMap (·.used) ++ m.schema.description.used)))
 
 /-- what `ast_to_str`'s autoflake pass (`remove_all_unused_imports=True`) leaves of the imports;
-    import statements left without a name disappear.  (autoflake is third-party: assumed, compared
-    with the really written file by the harness.) -/
+    import statements left without a name disappear.  An imported name that one of the two
+    assignments re-binds is kept (pyflakes reports it as "redefinition", not as "unused import").
+    (autoflake is third-party: assumed, compared with the really written file by the harness.) -/
 def prunedImports (m : PyModuleIR) : List ImportE :=
-  (m.imports.map fun i => { i with names := i.names.filter fun n => m.used.contains n }).filter
+  (m.imports.map fun i =>
+      { i with names := i.names.filter fun n => m.used.contains n || n == m.tmName || n == m.svName }).filter
     fun i => !i.names.isEmpty
 
 /-! ### Target dispatch (settings.py + main.graphql_schema) -/
